@@ -44,7 +44,8 @@ FUNCS = {"django": "odata_query.django.shorthand.apply_odata_query", "sa_orm": "
 
 def families(facts):
     return ["shorthand[django]", "shorthand[sa_core]", "shorthand[sa_orm/0]", "shorthand[sa_orm/1]", "shorthand[sa_orm/2]", "cfg.package",
-            "bounded.compose[django]", "bounded.compose[sa_orm]", "bounded.compose[sa_core]", "bounded.func-registry", "canary"]
+            "bounded.compose[django]", "bounded.compose[sa_orm]", "bounded.compose[sa_core]", "bounded.compose-rel[sa_orm]",
+            "bounded.func-registry", "canary"]
 
 
 def res(name, clause, ok, t0, reason, extra=None, backend="pyvc (term comparison)"):
@@ -266,6 +267,59 @@ def cfg_package(facts, t0):
     return out
 
 
+def cfg_funcnames(facts, t0, prop):
+    """finite check on the real source file: the SQL name each GenericFunction subclass of functions_ext emits is its class name
+    (SQLAlchemy: `name` defaults to the class name, `identifier` to `name`) -- the translation tables name these functions by class."""
+    out = []
+    root = facts.raw.get("repo_root") or os.environ.get("REPO_ROOT", "/repo")
+    path = os.path.join(root, "odata_query", "sqlalchemy", "functions_ext.py")
+    try:
+        tree = pyast.parse(open(path).read())
+    except Exception as ex:
+        return [{"name": f"{prop}:functions_ext:cfg.funcnames", "clause": "unsupported", "status": "undecided", "seconds": 0.0, "reason": str(ex)[:200]}]
+    classes = {nd.name: nd for nd in tree.body if isinstance(nd, pyast.ClassDef)}
+
+    def base_names(nd):
+        return [b.id if isinstance(b, pyast.Name) else getattr(b, "attr", "") for b in nd.bases]
+
+    def is_generic(nd, seen=()):
+        bs = base_names(nd)
+        return "GenericFunction" in bs or any(b in classes and b not in seen and is_generic(classes[b], seen + (nd.name,)) for b in bs)
+
+    def lookup(nd, attr, seen=()):
+        """value of a class attribute through the bases inside the module: ('const', v) | ('other',) | None"""
+        for st in nd.body:
+            tg = st.targets if isinstance(st, pyast.Assign) else ([st.target] if isinstance(st, pyast.AnnAssign) and st.value is not None else [])
+            if any(isinstance(t, pyast.Name) and t.id == attr for t in tg):
+                return ("const", st.value.value) if isinstance(st.value, pyast.Constant) else ("other",)
+        for b in base_names(nd):
+            if b in classes and b not in seen:
+                r = lookup(classes[b], attr, seen + (nd.name,))
+                if r is not None:
+                    return r
+        return None
+    n = 0
+    for node in tree.body:
+        if not isinstance(node, pyast.ClassDef) or not is_generic(node):
+            continue
+        n += 1
+        bad = []
+        for attr in ("name", "identifier"):
+            v = lookup(node, attr)
+            if v is not None and v != ("const", node.name):
+                bad.append(f"{attr} = {v[1]!r}" if v[0] == "const" else f"{attr} is computed")
+        for st in node.body:
+            if isinstance(st, (pyast.FunctionDef, pyast.AsyncFunctionDef)) and st.name in ("__init__", "_compiler_dispatch", "compile"):
+                bad.append(f"defines {st.name}")
+        out.append(res(f"{prop}:odata_query.sqlalchemy.functions_ext.{node.name}:cfg.funcnames", "cfg.funcnames", not bad, t0,
+                       f"emits the SQL function `{node.name}`" if not bad else f"the class named {node.name} does not emit `{node.name}`: " + "; ".join(bad),
+                       {"witness": {"class": node.name}, "what": node.name}, backend="finite-check"))
+    if n == 0:
+        out.append({"name": f"{prop}:functions_ext:cover", "clause": "cover", "status": "undecided", "seconds": 0.0, "selfcheck_failed": True,
+                    "reason": "no GenericFunction subclass found"})
+    return out
+
+
 COMPOSE = r'''
 import sqlite3
 from odata_query.grammar import ODataLexer, ODataParser
@@ -349,6 +403,47 @@ else:
 print(json.dumps({"violates": bool(problems), "problems": problems[:6], "bases": len(bases)}))
 '''
 
+COMPOSE_REL = r'''
+# two different relationships (Comment.post, Post.author) and base queries that already join none / the first / both
+import sqlalchemy as sa
+from sqlalchemy.orm import Session
+from odata_query.sqlalchemy import apply_odata_query
+RM = rel_models("sa_orm")
+Author, Post, Comment = RM["Author"], RM["Post"], RM["Comment"]
+problems = []
+bases = {"plain": lambda: sa.select(Comment), "joined-first": lambda: sa.select(Comment).join(Comment.post),
+         "joined-both": lambda: sa.select(Comment).join(Comment.post).join(Post.author),
+         "joined-first-filtered": lambda: sa.select(Comment).join(Comment.post).filter(Post.views >= 0)}
+FILTERS = ["score gt 0", "post/title eq 'a'", "post/author/name eq 'ann'", "post/title eq 'a' and post/author/name eq 'ann'",
+           "post/author/name eq 'ann' and post/title ne 'b'", "post/views ge 1 or post/author/name eq 'bob'"]
+for seed in range(3):
+    load_db("sa_orm", make_db(seed))
+    with Session(RM["engine"]) as ses:
+        def run(q):
+            return sorted(o.id for o in ses.execute(q).scalars().all())
+        for bn, mk in bases.items():
+            base_list = run(mk())
+            for f in FILTERS:
+                try:
+                    alone = run(apply_odata_query(bases["plain"](), f))
+                    q = apply_odata_query(mk(), f)
+                    got = run(q)
+                    sql = str(q.compile(RM["engine"])).upper()
+                except Exception as ex:
+                    problems.append([bn, f, "error " + type(ex).__name__ + ": " + str(ex).splitlines()[0][:100]])
+                    continue
+                want = sorted(set(base_list) & set(alone))
+                if got != want and not any(p[:2] == [bn, f] for p in problems):
+                    problems.append([bn, f, "database %d: rows %s, expected %s" % (seed, got, want)])
+                frm = sql.split("WHERE")[0]
+                for tname in ("POST", "AUTHOR"):
+                    if frm.count("JOIN " + tname + " ") > 1 and not any(p[:2] == [bn, f] for p in problems):
+                        problems.append([bn, f, "relationship joined twice: " + frm[-160:]])
+                if ("," in frm.split("FROM", 1)[1]) and not any(p[:2] == [bn, f] for p in problems):
+                    problems.append([bn, f, "a required relationship is not joined (cartesian product): " + frm[-160:]])
+print(json.dumps({"violates": bool(problems), "problems": problems[:6], "bases": len(bases), "filters": len(FILTERS)}))
+'''
+
 REGISTRY = r'''
 import json, subprocess, sys
 code = """
@@ -382,6 +477,11 @@ def bounded(fam, tier):
         script = REGISTRY
         bound = "14 sqlalchemy.func names before / after importing the backend, 2 import orders, fresh processes"
         name = "C15:func-registry:bounded"
+    elif fam == "bounded.compose-rel[sa_orm]":
+        from contracts.rel_native import REL_NATIVE
+        script = REL_NATIVE + COMPOSE_REL
+        bound = "sa_orm: 4 base queries (joining none / the first / both of two required relationships) x 6 filters x 3 generated databases"
+        name = "C15:compose-rel[sa_orm]:bounded"
     else:
         bkey = fam[len("bounded.compose["):-1]
         script = ORM_NATIVE + COMPOSE.replace("__BKEY__", repr(bkey))
